@@ -91,6 +91,13 @@ static int line_to_instr(struct instr *instr_data, char *filtered_asm_str) {
   instr_data->key = str_to_instr_key(instr_data->instruction, opd_format);
   FAIL_IF_VAR(instr_data->key == INSTR_ERROR,
               "unsupported or illegal instruction: %s\n", asm_str);
+  // jrcxz only has a rel8 form: a displacement outside -128..127 cannot be
+  // encoded
+  if (instr_data->imm && NAME(instr_data->key, jrcxz) &&
+      instr_data->cons > MAX_SIGNED_8BIT && instr_data->cons < NEG80BIT) {
+    fprintf(stderr, "assembyline: jrcxz displacement out of range\n");
+    return EXIT_FAILURE;
+  }
   // call has no short form: never advance to a rel8 row
   if (instr_data->imm && TYPE(instr_data->key, CONTROL_FLOW) &&
       !NAME(instr_data->key, call)) {
